@@ -42,3 +42,18 @@ Proof. symmetry. apply NoDup_Permutation_bis.
 (* periodic boundary: the same bonds plus the wrap-around bond (0, L-1) *)
 Theorem ising_bonds_periodic L : 1 < L -> ising_bonds L true = ising_bonds L false ++ [(0, L - 1)].
 Proof. intro H. unfold ising_bonds. destruct (Nat.ltb_spec 1 L); [|lia]. cbn [andb]. rewrite !app_nil_r, <- !app_assoc. reflexivity. Qed.
+
+(* every coupling of the Heisenberg step acts on exactly the bonds of the Ising pattern: each chain bond once (plus the closing bond) *)
+Lemma bonds_of_map_same g l : bonds_of g (map (pair g) l) = l.
+Proof. unfold bonds_of. induction l as [|x l IH]; [reflexivity|]. cbn [map filter fst]. destruct g; cbn [map snd]; f_equal; exact IH. Qed.
+Lemma bonds_of_map_other g g' l : g <> g' -> bonds_of g (map (pair g') l) = [].
+Proof. intro H. unfold bonds_of. induction l as [|x l IH]; [reflexivity|]. cbn [map filter fst]. destruct g, g'; try congruence; exact IH. Qed.
+Lemma bonds_of_app g a b : bonds_of g (a ++ b) = bonds_of g a ++ bonds_of g b.
+Proof. unfold bonds_of. rewrite filter_app, map_app. reflexivity. Qed.
+Lemma bonds_of_fields g L : g <> HRz -> bonds_of g (map (fun q => (HRz, (q, q))) (seq 0 L)) = [].
+Proof. intro H. unfold bonds_of. induction (seq 0 L) as [|x l IH]; [reflexivity|]. cbn [map filter fst]. destruct g; try congruence; exact IH. Qed.
+Theorem heis_bonds L periodic g : g <> HRz -> bonds_of g (heis_step L periodic) = ising_bonds L periodic.
+Proof. intro H. unfold heis_step. rewrite !bonds_of_app, bonds_of_fields by exact H.
+  destruct g; try congruence; rewrite ?bonds_of_map_same, ?bonds_of_map_other by congruence; cbn [app]; rewrite ?app_nil_r; reflexivity. Qed.
+Theorem heis_couplings_cover_chain L g : g <> HRz -> Permutation (bonds_of g (heis_step L false)) (chain_bonds L).
+Proof. intro H. rewrite heis_bonds by exact H. apply ising_bonds_cover_chain. Qed.
